@@ -134,9 +134,10 @@ class Obs:
         self.exits.setdefault(d["job"], []).append(d["code"])
 
     def on_hook(self, w, vp, d):
+        disk = read_json(d["env"].get("JADE_RUNTIME_OUTPUT", w.root) + "/cluster_config.json") or {}
         self.hooks.append(dict(vp=vp.name, host=vp.host, argv=d["argv"], env=d["env"], rc=d["rc"],
                                n_sbatch=len(self.sbatch_log), n_launch=len(self.launch_log),
-                               complete=self.complete_seen, kind=vp.kind,
+                               complete=bool(self.complete_seen or disk.get("is_complete")), kind=vp.kind,
                                rows=frozenset(disk_rows(w)), exits=dict(self.exits),
                                live=sorted(vp.jobs), launched=dict(self.launch)))
 
@@ -144,6 +145,10 @@ class Obs:
         rel = d["rel"]
         if RE_BATCH.search(rel):
             self.cfg_writes[rel] = self.cfg_writes.get(rel, 0) + 1
+        if rel == "results.json":
+            self.summary_writes = getattr(self, "summary_writes", {})
+            self.summary_writes[self.epoch] = self.summary_writes.get(self.epoch, 0) + 1
+            w.emit("summary_written", vp=vp, n=self.summary_writes[self.epoch])
 
     def on_vend(self, w, vp, d):
         if d.get("crashed"):
@@ -190,6 +195,7 @@ class Obs:
         h.update(repr(sorted(self.batchN.items())).encode())
         h.update(repr(sorted(self.cfg_writes.items())).encode())
         h.update(repr(sorted(self.launch.items())).encode())
+        h.update(repr(sorted(getattr(self, "summary_writes", {}).items())).encode())
         h.update(repr((self.completions, self.complete_seen, self.cancel_seen, self.epoch,
                        len(self.hooks), len(self.scancel_log), len(self.crashes),
                        len(self.nested_crashes))).encode())
@@ -448,6 +454,11 @@ class C05(PropOracle):
     def on_sbatch(self, w, vp, d):
         if w.obs.complete_seen:
             self.v(w, f"sbatch of {d.get('name')} after the completion flag was set", "sbatch-after-complete")
+
+    def on_summary_written(self, w, vp, d):
+        if d["n"] > 1 and not w.data.get("faulty"):
+            self.v(w, f"the completion sequence ran {d['n']} times in one fault-free submission (results summary rewritten by {vp.name})",
+                   "completion-sequence-twice")
 
     def on_vstart(self, w, vp, d):
         if vp.kind == "login":
